@@ -72,6 +72,44 @@ theorem fit_history_free (S : Summary) (hh : HistoryFree S = true) (F : HOra) (o
   · exact Or.inl ha
   · exact Or.inr (historyFree_complete hh W' hW' a ha)
 
+/-- **Prediction leaves the object alone.**  A method whose summary is a pure reader (obligations
+`pure_<Class>_<method>` regenerated for every `predict*` / `sample*` method) leaves every attribute of `self` as it
+found it, on every path, for all arguments and oracles: nothing resolved during a prediction can leak into a later
+`fit` or prediction. -/
+theorem pureReader_preserves_object (F : HOra) (p : Prog) (h : pureReader p = true) :
+    ∀ s : HSt, (hRun F p s).obj = s.obj := by
+  induction p with
+  | skip => intro s; rfl
+  | abort => intro s; rfl
+  | seq e rest ih =>
+    intro s
+    cases e with
+    | writeAttr a r => simp [pureReader] at h
+    | mutate q st =>
+      simp only [pureReader, Bool.and_eq_true] at h
+      simp only [hRun]; rw [ih h.2]; rfl
+    | callFit q =>
+      simp only [pureReader, Bool.and_eq_true] at h
+      simp only [hRun]; rw [ih h.2]; rfl
+    | bind x r => simp only [pureReader] at h; simp only [hRun]; rw [ih h]; rfl
+    | callInner q => simp only [pureReader] at h; simp only [hRun]; rw [ih h]; rfl
+    | readAttr a => simp only [pureReader] at h; simp only [hRun]; rw [ih h]; rfl
+  | ite t e rest iht ihe ihr =>
+    intro s
+    simp only [pureReader, Bool.and_eq_true] at h
+    obtain ⟨⟨ht, he⟩, hr⟩ := h
+    simp only [hRun]
+    by_cases hc : F.cond s.clk s.log = true
+    · simp only [hc, if_true]
+      split
+      · rw [iht ht]
+      · rw [ihr hr, iht ht]
+    · have hc' : F.cond s.clk s.log = false := by simpa using hc
+      simp only [hc', Bool.false_eq_true, if_false]
+      split
+      · rw [ihe he]
+      · rw [ihr hr, ihe he]
+
 /-- **C13, combined statement** (`frame_fit_history_free` of DESIGN §4): a `fit` whose summary
 neither reads a fitted attribute before writing it nor writes / mutates a parameter (i) computes
 the same model from any history as from a fresh clone and (ii) leaves `get_params` — including the
